@@ -26,7 +26,7 @@ GROUP_BODIES = {
     "ios": {"G1": ["host 10.0.0.1", "10.0.0.0 255.255.255.0"], "G2": ["10.1.0.0 255.255.0.0", "description members of G2"]},
     "nxos": {"G1": ["10 host 10.0.0.1", "20 10.0.0.0/24"], "G2": ["10.1.0.0/16"]},
 }
-NOISE = ["hostname R1", "router bgp 65000\n neighbor 10.0.0.1 remote-as 65001\n address-family ipv4\n  network 10.0.0.0", "line vty 0 4\n transport input ssh",
+NOISE = ["template T1\n ip access-group A1 in\n description a template, not an interface", "hostname R1", "router bgp 65000\n neighbor 10.0.0.1 remote-as 65001\n address-family ipv4\n  network 10.0.0.0", "line vty 0 4\n transport input ssh",
          "! a comment", "ip route 0.0.0.0 0.0.0.0 10.0.0.254"]
 
 
@@ -54,7 +54,9 @@ def make_cfg(platform, acl_names, group_names, intfs, indent, noise_seed):
         head = f"object-group network {g}" if platform == "ios" else f"object-group ip address {g}"
         secs.append("\n".join([head] + body_lines(GROUP_BODIES[platform][g])))
     for name, binds in intfs:
-        secs.append("\n".join([f"interface {name}"] + [pad + "description uplink"] + [pad + f"ip access-group {a} {d}" for a, d in binds]))
+        # the description may quote a command: only real `ip access-group` lines of the interface bind an ACL
+        descr = "description uplink" if noise_seed % 3 else f"description was: ip access-group {acl_names[-1]} out (replaced)"
+        secs.append("\n".join([f"interface {name}"] + [pad + descr] + [pad + f"ip access-group {a} {d}" for a, d in binds]))
     for k in range(noise_seed % 3):
         secs.append(NOISE[(noise_seed + k) % len(NOISE)])
     rnd.shuffle(secs)
